@@ -361,6 +361,8 @@ func applyCursorsToAllEdges(edges []Edge, before *string, after *string) ([]Edge
 	if before != nil {
 		i := getCursorIndex(edges, *before)
 		if i != -1 {
+			// "after" may already have shortened edges; i is an index into what is left.
+			edgeCount = len(edges)
 			edges = edges[:i]
 			if i != edgeCount-1 {
 				elemsAfter = true
